@@ -20,6 +20,7 @@ import Fir.Proofs.ErrLemmas
 import Fir.Proofs.ImageLemmas
 import Fir.Proofs.TwoPassLemmas
 import Fir.Proofs.IdealFilterLemmas
+import Fir.Proofs.TwoPass16Lemmas
 
 namespace Fir.C01
 open Fir
@@ -194,6 +195,73 @@ theorem qCatmull_even (x : ℚ) : qCatmull (-x) = qCatmull x :=
 open Fir.Spec in
 theorem qMitchell_even (x : ℚ) : qMitchell (-x) = qMitchell x :=
   Fir.Proofs.qMitchell_even x
+
+/-! ### 16-bit components (pass order: horizontal, then vertical) -/
+
+open Fir.Proofs in
+theorem horizPass_err_u16 (src : Img) (dstW dstH offset : Nat) (c : Coeffs) (ws : Nat → List ℚ)
+    (hp1 : 1 ≤ (qOf .u16 c).precision) (hp : (qOf .u16 c).precision < 64)
+    (hlen : ∀ x, x < dstW → (chunkAt .u16 c x).2.toList.length = (ws x).length)
+    (hq : ∀ x, x < dstW → ∀ i, i < (ws x).length →
+      |(((chunkAt .u16 c x).2.toList.getD i 0 : Int) : ℚ) - (ws x).getD i 0 * 2 ^ (qOf .u16 c).precision| ≤ 1 / 2)
+    (hsamp : ∀ x y ch, x < dstW → y < dstH → ch < src.n → ∀ s ∈ hWindow .u16 src offset c x y ch, 0 ≤ s ∧ s ≤ 65535)
+    (hacc : ∀ x y ch, x < dstW → y < dstH → ch < src.n →
+      AccOK16 (chunkAt .u16 c x).2.toList (hWindow .u16 src offset c x y ch) (qOf .u16 c).precision)
+    (x y ch : Nat) (hx : x < dstW) (hy : y < dstH) (hc : ch < src.n) :
+    |(((horizPass .u16 src dstW dstH offset c).get x y ch : Int) : ℚ)
+        - max 0 (min 65535 (idealDotQ (ws x) (hWindow .u16 src offset c x y ch)))|
+      ≤ 1 / 2 + ((ws x).length : ℚ) * 65535 / 2 ^ ((qOf .u16 c).precision + 1) :=
+  Fir.Proofs.horizPass_err_u16 src dstW dstH offset c ws hp1 hp hlen hq hsamp hacc x y ch hx hy hc
+
+open Fir.Proofs in
+theorem vertPass_err_u16 (src : Img) (dstW dstH offset : Nat) (c : Coeffs) (ws : Nat → List ℚ)
+    (hp1 : 1 ≤ (qOf .u16 c).precision) (hp : (qOf .u16 c).precision < 64)
+    (hlen : ∀ y, y < dstH → (chunkAt .u16 c y).2.toList.length = (ws y).length)
+    (hq : ∀ y, y < dstH → ∀ i, i < (ws y).length →
+      |(((chunkAt .u16 c y).2.toList.getD i 0 : Int) : ℚ) - (ws y).getD i 0 * 2 ^ (qOf .u16 c).precision| ≤ 1 / 2)
+    (hsamp : ∀ x y ch, x < dstW → y < dstH → ch < src.n → ∀ s ∈ vWindow .u16 src offset c x y ch, 0 ≤ s ∧ s ≤ 65535)
+    (hacc : ∀ x y ch, x < dstW → y < dstH → ch < src.n →
+      AccOK16 (chunkAt .u16 c y).2.toList (vWindow .u16 src offset c x y ch) (qOf .u16 c).precision)
+    (x y ch : Nat) (hx : x < dstW) (hy : y < dstH) (hc : ch < src.n) :
+    |(((vertPass .u16 src dstW dstH offset c).get x y ch : Int) : ℚ)
+        - max 0 (min 65535 (idealDotQ (ws y) (vWindow .u16 src offset c x y ch)))|
+      ≤ 1 / 2 + ((ws y).length : ℚ) * 65535 / 2 ^ ((qOf .u16 c).precision + 1) :=
+  Fir.Proofs.vertPass_err_u16 src dstW dstH offset c ws hp1 hp hlen hq hsamp hacc x y ch hx hy hc
+
+open Fir.Proofs in
+theorem twoPass_err_u16 (src : Img) (dstW dstH tempH yFirst : Nat) (hc vc : Coeffs) (wsH wsV : Nat → List ℚ)
+    (hpH1 : 1 ≤ (qOf .u16 hc).precision) (hpH : (qOf .u16 hc).precision < 64)
+    (hpV1 : 1 ≤ (qOf .u16 vc).precision) (hpV : (qOf .u16 vc).precision < 64)
+    (hlenH : ∀ x, x < dstW → (chunkAt .u16 hc x).2.toList.length = (wsH x).length)
+    (hqH : ∀ x, x < dstW → ∀ i, i < (wsH x).length →
+      |(((chunkAt .u16 hc x).2.toList.getD i 0 : Int) : ℚ) - (wsH x).getD i 0 * 2 ^ (qOf .u16 hc).precision| ≤ 1 / 2)
+    (hsamp : ∀ x y ch, x < dstW → y < tempH → ch < src.n → ∀ s ∈ hWindow .u16 src yFirst hc x y ch, 0 ≤ s ∧ s ≤ 65535)
+    (haccH : ∀ x y ch, x < dstW → y < tempH → ch < src.n →
+      AccOK16 (chunkAt .u16 hc x).2.toList (hWindow .u16 src yFirst hc x y ch) (qOf .u16 hc).precision)
+    (hlenV : ∀ y, y < dstH → (chunkAt .u16 vc y).2.toList.length = (wsV y).length)
+    (hqV : ∀ y, y < dstH → ∀ i, i < (wsV y).length →
+      |(((chunkAt .u16 vc y).2.toList.getD i 0 : Int) : ℚ) - (wsV y).getD i 0 * 2 ^ (qOf .u16 vc).precision| ≤ 1 / 2)
+    (hfit : ∀ y, y < dstH → (chunkAt .u16 vc y).1 + (chunkAt .u16 vc y).2.size ≤ tempH)
+    (haccV : ∀ x y ch, x < dstW → y < dstH → ch < src.n →
+      AccOK16 (chunkAt .u16 vc y).2.toList (vWindow .u16 (horizPass .u16 src dstW tempH yFirst hc) 0 vc x y ch) (qOf .u16 vc).precision)
+    (x y ch : Nat) (hx : x < dstW) (hy : y < dstH) (hc' : ch < src.n) :
+    |(((vertPass .u16 (horizPass .u16 src dstW tempH yFirst hc) dstW dstH 0 vc).get x y ch : Int) : ℚ)
+        - idealTwoPass16 src yFirst hc vc wsH wsV x y ch|
+      ≤ (1 / 2 + ((wsV y).length : ℚ) * 65535 / 2 ^ ((qOf .u16 vc).precision + 1))
+        + ((wsV y).map (|·|)).sum * (1 / 2 + ((wsH x).length : ℚ) * 65535 / 2 ^ ((qOf .u16 hc).precision + 1)) :=
+  Fir.Proofs.twoPass_err_u16 src dstW dstH tempH yFirst hc vc wsH wsV hpH1 hpH hpV1 hpV hlenH hqH hsamp haccH hlenV hqV hfit haccV x y ch hx hy hc'
+
+open Fir.Proofs in
+theorem doConvolution_two_pass_not_u8 (p : PixT) (hk : (p.kind == CKind.u8) = false) (src prev : Img) (cl ct cw ch : Float) (f : FilterSpec) (adaptive : Bool)
+    (hw : prev.w ≠ 0) (hh : prev.h ≠ 0) (hcw : (cw ≤ 0.0) = false) (hch : (ch ≤ 0.0) = false)
+    (hneedH : (Float.ofNat prev.w != cw || cl != cl.round) = true)
+    (hneedV : (Float.ofNat prev.h != ch || ct != ct.round) = true) :
+    let hc := precomputeCoefficients src.w cl (cl + cw) prev.w f adaptive
+    let vc := precomputeCoefficients src.h ct (ct + ch) prev.h f adaptive
+    doConvolution p src cl ct cw ch prev f adaptive =
+      vertPass p.kind (horizPass p.kind src prev.w (boundsLast vc - boundsFirst vc) (boundsFirst vc) hc) prev.w prev.h 0
+        { vc with bounds := vc.bounds.map fun b => (b.1 - boundsFirst vc, b.2) } :=
+  Fir.Proofs.doConvolution_two_pass_not_u8 p hk src prev cl ct cw ch f adaptive hw hh hcw hch hneedH hneedV
 
 /-- SuperSampling is the convolution of the nearest-neighbour intermediate image it documents
     (factor > 1.2), or the plain convolution (otherwise) - by the model's control flow -/
